@@ -11,6 +11,8 @@ import (
 	"time"
 )
 
+var fbTimeoutDefault = 60
+
 type Result int
 
 const (
@@ -70,7 +72,7 @@ func NewSolver(kind string, timeoutMs int, logw io.Writer) (*Solver, error) {
 	if err := cmd.Start(); err != nil {
 		return nil, err
 	}
-	s := &Solver{cmd: cmd, in: in, out: bufio.NewReaderSize(out, 1<<16), p: NewPrinter(), log: logw, kind: kind, timeout: timeoutMs, fbTimeout: 60}
+	s := &Solver{cmd: cmd, in: in, out: bufio.NewReaderSize(out, 1<<16), p: NewPrinter(), log: logw, kind: kind, timeout: timeoutMs, fbTimeout: fbTimeoutDefault}
 	s.levels = [][]string{nil}
 	s.send("(set-option :produce-models true)\n")
 	if kind == "cvc5" {
